@@ -254,6 +254,79 @@ def judge(ctx, text, case, original=False):
                       {'got': got, 'want': want})
 
 
+def run_subsigned(u, ctx):
+    """A sub-Manifest that carries a cleartext signature of its own and is loaded
+    through a MANIFEST entry of its parent: with verification on, its text goes through
+    the OpenPGP check like any other signed Manifest (a forged one is refused, however
+    well the parent's entry matches the forged bytes)."""
+    import hashlib
+    from gemato.exceptions import GematoException
+    from gemato.openpgp import SystemGPGEnvironment
+    from gemato.recursiveloader import ManifestRecursiveLoader
+    h = home()
+    for variant in ('valid', 'tampered-entry', 'added-line', 'foreign-text'):
+        with common.Scratch('vf-c04s-') as d:
+            root = os.path.join(d, 't')
+            os.makedirs(os.path.join(root, 'sub'))
+            good, evil = b'good content', b'evil content'
+            body = mtext.render([mtext.file_entry('DATA', 'f', good, ['SHA256'])])
+            signed = h.clearsign(body)
+            data = good
+            if variant == 'tampered-entry':
+                signed = signed.replace(hashlib.sha256(good).hexdigest(),
+                                        hashlib.sha256(evil).hexdigest())
+                data = evil
+            elif variant == 'added-line':
+                signed = signed.replace('DATA f ', 'IGNORE g\nDATA f ', 1)
+            elif variant == 'foreign-text':
+                other = h.clearsign('IGNORE z\n')
+                # the signature block of another message under this text
+                signed = signed[:signed.index(cleartext.SIGBEGIN)] + \
+                    other[other.index(cleartext.SIGBEGIN):]
+            with open(os.path.join(root, 'sub', 'f'), 'wb') as f:
+                f.write(data)
+            sb = signed.encode('utf8')
+            with open(os.path.join(root, 'sub', 'Manifest'), 'wb') as f:
+                f.write(sb)
+            with open(os.path.join(root, 'Manifest'), 'w') as f:
+                f.write(mtext.render([mtext.file_entry('MANIFEST', 'sub/Manifest', sb,
+                                                       ['SHA256'])]))
+            case = {'kind': 'subsigned', 'variant': variant}
+            ctx.case(sig=('subsigned', variant), case=case, nontrivial=True,
+                     klass='subsigned')
+            ctx.count('gpg:subsigned_cases')
+            old_home = os.environ.get('GNUPGHOME')
+            os.environ['GNUPGHOME'] = h.dir
+            try:
+                try:
+                    m = ManifestRecursiveLoader(os.path.join(root, 'Manifest'),
+                                                verify_openpgp=True,
+                                                openpgp_env=SystemGPGEnvironment())
+                    res = ('ret', m.assert_directory_verifies(''))
+                except GematoException as exc:
+                    res = ('gexc', exc)
+                except Exception as exc:
+                    res = ('exc', exc)
+            finally:
+                if old_home is None:
+                    os.environ.pop('GNUPGHOME', None)
+                else:
+                    os.environ['GNUPGHOME'] = old_home
+            if variant == 'valid':
+                if res[0] != 'ret' or res[1] is not True:
+                    ctx.violation('valid-signed-sub-manifest-refused', 'a tree whose '
+                                  'sub-Manifest carries a valid signature -> %r' % (res,),
+                                  case)
+            elif res[0] == 'ret':
+                ctx.violation('forged-signed-sub-manifest-accepted', 'sub-Manifest with '
+                              'a cleartext signature that does not match its text (%s) '
+                              'was used: verification returned %r' % (variant, res[1]),
+                              case)
+            elif res[0] == 'exc':
+                ctx.violation('load-raises:' + adapt.exc_key(res[1]), 'raised %r'
+                              % (res[1],), case)
+
+
 def run_longline(u, ctx):
     """The boundary of what GnuPG covers of one cleartext line, approached byte by
     byte, on lines that hold multi-byte characters (a limit counted in characters is
